@@ -65,6 +65,12 @@ impl Command for T {
     }
 }
 
+struct Broken {}
+impl std::io::Write for Broken {
+    fn write(&mut self, _buf: &[u8]) -> std::io::Result<usize> { Err(std::io::Error::new(std::io::ErrorKind::BrokenPipe, "consumer is gone")) }
+    fn flush(&mut self) -> std::io::Result<()> { Err(std::io::Error::new(std::io::ErrorKind::BrokenPipe, "consumer is gone")) }
+}
+
 pub fn gen(r: &mut Rng) -> Value {
     if r.chance(1, 40) {
         // C13: a script that would loop for ever, the embedder raises the flag from a second thread at some instant
@@ -100,7 +106,7 @@ pub fn gen(r: &mut Rng) -> Value {
         lines.push(json!({"label": label, "out": out, "kind": kind, "val": val, "target": target, "via_alias": r.chance(1, 5)}));
     }
     // (sometimes the embedder's flag is already up when the run starts)
-    json!({"lines": lines, "on_error": r.below(4), "fuel": 40, "prehalt": r.chance(1, 12), "as_file": r.chance(1, 4), "env_mode": r.below(3)})
+    json!({"lines": lines, "on_error": r.below(4), "fuel": 40, "prehalt": r.chance(1, 12), "as_file": r.chance(1, 4), "env_mode": r.below(4)})
 }
 
 fn upd(vars: &mut BTreeMap<String, String>, out: &Option<String>, v: Option<String>) {
